@@ -203,6 +203,8 @@ pub_step!(c04_exclusive_offer_fragmented_after_handover, Kind::ExclOffer, 3, 64,
 // @verif tier=quick unwind=4 unwindset=term_untouched:12,payload_in_log:66 fs=6000
 pub_step!(c04_exclusive_offer_trips_term_end, Kind::ExclOffer, 0, TL as i32 - 64, 40);
 // @verif tier=quick unwind=4 unwindset=term_untouched:12,payload_in_log:66 fs=6000
+pub_step!(c04_exclusive_offer_fills_term_exactly_odd_term_count, Kind::ExclOffer, 3, TL as i32 - 64, 32);
+// @verif tier=quick unwind=4 unwindset=term_untouched:12,payload_in_log:66 fs=6000
 pub_step!(c04_exclusive_claim_commit, Kind::ExclClaim, 0, 128, 1);
 // The exclusive appender reaches its tail counter through an integer-derived raw pointer; for partitions 1 and 2 CBMC
 // cannot resolve it inside the 5.6 KB log object (15 min+, measured), so exclusive instances use term counts that are
@@ -262,3 +264,8 @@ fn c04_shared_accessors_open_and_closed() {
     assert!(matches!(p.available_window(), Err(AeronError::PublicationClosed)), "C04: closed publication rejects available_window()");
     std::mem::forget(p);
 }
+
+// C17 states that positions are elapsed-terms x term-length + offset everywhere they are reported; the position an
+// exclusive offer returns when the message ends flush with the term end (odd number of elapsed terms) is the same step.
+// @verif tier=quick unwind=4 unwindset=term_untouched:12,payload_in_log:66 fs=6000
+pub_step!(c17_exclusive_offer_position_flush_with_term_end, Kind::ExclOffer, 3, TL as i32 - 64, 32);
